@@ -3,7 +3,7 @@
 From Coq Require Import ZArith List ExtrOcamlBasic.
 Require Import ZV.Model.HashTbl.
 Extraction "model.ml" Z.add Z.mul Z.opp Z.div_eucl Z.of_nat Z.to_nat Z.compare
-  empty step s_step hash_get hash_get_default len keys hpair range_pair range_key
+  empty make_hash step s_step hash_get hash_get_default len keys hpair range_pair range_key
   str_obs json_obs loop_macro loop_infix abs
   s_lookup s_get s_len s_keys s_pair s_range_key s_str s_json s_loop
   ceq kid unwrap ahash khash key_ok.
